@@ -43,7 +43,15 @@ out += ["", "Changes that were missed at first and what was strengthened:", "",
         "* `C06_m1` (stale residue bundle with a digitally silent channel in an uncoupled >= 3 channel mode): added the `gated` signal kind (each channel silent in its own segments) to the",
         "  channel-identity and envelope clauses.",
         "* `C06_m2` (managed-mode sliding low-pass uses the short block size): added a dedicated managed/coupled-stereo/44.1-48 kHz stratum with the `wide` signal (partials up to 0.42 x rate)",
-        "  and calibrated its envelope keys.", "<!-- AUTOGEN-END -->"]
+        "  and calibrated its envelope keys.",
+        "* Round 2 (sub-agents told which sites round 1 had used and asked for rarer, subtler changes):",
+        "  `C01_r2m1` (32-bit look-ahead word made `int`: only codewords of length exactly 32 ending in a 1 bit) - the model now draws chain-shaped codebooks (lengths 1,2,...,k-1,k,k with k up to 32);",
+        "  `C07_r2m1` (ov_pcm_seek drops the link's initial granule offset) - chain links now start at non-zero granule positions in 18 % of cases (which also exposed the link-0 defect of section 11);",
+        "  `C09_r2m1` (open-time bisection takes any foreign BOS page for the link boundary) - every 10th C09 chain has 3-6 links of 100-400 KB so that the bisection really bisects;",
+        "  `C06_r2m2` (transient verdict of all but the last channel discarded) - new `onset` signal (a noise burst out of digital silence in one channel) with a pre-echo clause (-45 dB 700-1700 samples ahead; 0 on the unchanged tree);",
+        "  `C05_r2m2` (wrong length from `vorbis_analysis(vb,&op)`) - every third unmanaged encode is repeated through the direct packet interface and must be byte-identical;",
+        "  `C08_r2m2` (a forward-hop fast path that is wrong only at half rate) leaves `ov_pcm_tell` exact, so C08 (position) is silent by construction; C20 (half-rate audio vs reference) reports it.",
+        "<!-- AUTOGEN-END -->"]
 p = os.path.join(V, 'DESIGN.md')
 s = open(p).read()
 block = "\n".join(out) + "\n"
